@@ -15,8 +15,6 @@ CLOSURE = [
     {'fn': 'Explainer.get_confidence_bound'},
     {'fn': 'Explainer.variances'}, {'fn': 'Explainer.importance_values'},
     # variances are running statistics of squares: the invariant var_nonneg is established and preserved
-]
-_LATER = [
     {'fn': 'IncrementalPFI.__init__', 'clauses': ['inv:var_nonneg']},
     {'fn': 'IncrementalSage.__init__', 'clauses': ['inv:var_nonneg']},
     {'fn': 'IncrementalPFI.explain_one', 'clauses': ['inv:var_nonneg']},
